@@ -154,7 +154,11 @@ def run_pinned(ctx, tier):
             else:
                 out.append(('note', kid, 'pinned reproducer of known finding'
                             ' %s no longer fails' % kid))
-        for f in unknown:
+        # a pinned case that is expected to pass (regression case of a fixed
+        # finding, corpus case) is judged strictly: a failure is reported
+        # even if it happens to match the matcher of some known finding
+        judged = unknown if expect.startswith('known:') else res.failures
+        for f in judged:
             if f.sig in ctx.excluded:
                 continue
             ctx.excluded.add(f.sig)
